@@ -67,7 +67,7 @@ func init() {
 const (
 	watchdog     = 90 * time.Second
 	quiescence   = 6 * time.Second
-	stateTimeout = 4 * time.Second
+	stateTimeout = 30 * time.Second // long enough that only a dead conversation reaches it, also on a loaded machine
 )
 
 var shapeNames = []string{"no-blocks", "empty", "matching", "other", "multi"}
